@@ -487,10 +487,19 @@ def r7_5(prog, rep, pp):
                 if isinstance(t, ast.Attribute) and isinstance(t.value, ast.Name) and t.value.id in f.params and t.value.id in frame_params:
                     obl(rep, f, s, "R7.5", False, f"`{short(s, 70)}`", "", f"attribute of the caller's `{t.value.id}` is re-assigned")
     dm = prog.fn("matrices.design_matrices")
-    rebinds = [s for s in walk_local(dm.node) if isinstance(s, ast.Assign) and unparse(s.targets[0]) == "data"]
-    ok = all(unparse(s.value) in ("data[list(cols_to_select)]", "data[~incomplete_rows]") for s in rebinds) and len(rebinds) >= 1
-    obl(rep, dm, rebinds[0] if rebinds else dm.node, "R7.5", ok, "design_matrices only re-binds `data` to new frames (column subset, row filter)",
-        str([unparse(s.value) for s in rebinds]))
+    from . import C09
+    try:
+        D, leaves, filtered = C09.frames_summary(prog, dm)
+    except AnalysisError as e:
+        rep.defer(f"R7.5: {e}")
+        D, leaves, filtered = None, [], set()
+    p_data = dm.params[1]
+    fresh = [x for x in leaves if x[1] in filtered or (x[1] == D and D is not None and D.startswith((f"{p_data}[", f"{p_data}.loc[")))]
+    stale = [x for x in leaves if x not in fresh]
+    obl(rep, dm, stale[0][3] if stale else dm.node, "R7.5", bool(leaves) and not stale,
+        "design_matrices hands only new frames (column subset, row filter) to the design, never the caller's own frame object",
+        f"{len(leaves)} symbolic frame value(s)", f"the design can be built from {sorted({x[1] for x in stale})[:2]}: the caller's frame itself "
+        "(or something derived from it in place) is kept and later operations reach it")
     # namespace writes
     bad = []
     for q, f in sorted(prog.functions.items()):
